@@ -44,6 +44,8 @@ def make_spec(t):
     if not t["outs"]:
         return "true\n"
     lines = []
+    if t.get("binary_output"):
+        lines.append("printf 'caf\\351 \\377\\376 not utf-8\\n'")  # what a job prints is none of gwf's business
     for o in t["outs"]:
         if t["ins"]:
             lines.append("cat %s > %s" % (" ".join(t["ins"]), o))
@@ -66,6 +68,7 @@ def gen_case(rng, idx, tier):
         for o in t["outs"]:
             ticks[o] = {"allpresent": rng.choice([0, 1, 2, 3]), "none": None}.get(mode, rng.choice([None, 0, 1, 2, 3]))
         t["no_trailing_newline"] = rng.random() < 0.3
+        t["binary_output"] = rng.random() < 0.3
         t["spec"] = make_spec(t)
     names = [t["name"] for t in dag["targets"]]
     perturbs = []
